@@ -22,7 +22,7 @@ func init() {
 	fw.Register(&fw.Check{
 		ID:    "C07",
 		Level: "fault_enumeration",
-		Rule: "(gate) COMPLETE product of 9 not-selected situations {never-opened, closed, connecting, connected-not-selected, deselected, between-generations, after-separate, and the two live-socket ones again after an orphan Select.rsp(0)} x 8 data-send entry points " +
+		Rule: "(gate) COMPLETE product of 10 not-selected situations {never-opened, closed, connecting, connected-not-selected, deselected, between-generations, after-separate, the two live-socket ones again after an orphan Select.rsp(0), and deselected by a Deselect.req that the peer wrote in one segment with its Select frame (repeated more often)} x 8 data-send entry points " +
 			"{SendDataMessage W/!W, SendSECS2Message W/!W, SendDataMessageAsync, ReplyDataMessage, ForwardDataMessage, ForwardDataMessageAsync} x role {active, passive}, repeated with/without supervisor-step delays, " +
 			"plus inbound data in the two situations with a live socket; (race) concurrent senders while the peer toggles Deselect/Select and the write-lock seam waits for a deselect, checked by conservation " +
 			"(calls = frames at peer + counted drops + definite errors, one drop per refused call, no token of a refused call at the peer); (pipeline) Select.req+k data (passive) / Select.rsp+k data (active) " +
@@ -56,7 +56,10 @@ func init() {
 var c07Situations = []string{"never-opened", "closed", "connecting", "connected-not-selected", "deselected", "between-generations", "after-separate",
 	// the same two live-socket situations after the peer has sent a Select.rsp(status 0) that answers no open Select
 	// transaction: it is rejected (reason 3) and selects nothing
-	"connected-not-selected" + c07OrphanRsp, "deselected" + c07OrphanRsp}
+	"connected-not-selected" + c07OrphanRsp, "deselected" + c07OrphanRsp,
+	// selected and deselected again in ONE write of the peer (active: Select.rsp(0) + Deselect.req behind the library's
+	// Select.req; passive: Select.req + Deselect.req): the session the peer has left stays left
+	"deselected-pipelined"}
 
 const c07OrphanRsp = "+orphan-select-rsp"
 
@@ -130,6 +133,20 @@ func c07Gate(env *fw.Env) {
 				}
 				c07GateOne(env, c07Case{Index: i, Situation: sit, Active: active, Delays: rep%2 == 1})
 			}
+		}
+	}
+	// the pipelined select/deselect depends on how the library's goroutines interleave: more attempts of that one
+	for extra := 0; extra < env.Pick(8, 60); extra++ {
+		for _, active := range []bool{true, false} {
+			i := idx
+			idx++
+			if !env.Mine(i) || !env.Want(i) {
+				continue
+			}
+			if env.Stop() {
+				return
+			}
+			c07GateOne(env, c07Case{Index: i, Situation: "deselected-pipelined", Active: active, Delays: extra%2 == 1})
 		}
 	}
 }
@@ -215,6 +232,41 @@ func c07GateOne(env *fw.Env, cs c07Case) {
 			fail("not-in-notselected", "TCP is up but State() is "+rg.Conn.State().String())
 			return
 		}
+	case "deselected-pipelined":
+		opened = true
+		if err := rg.Open(); err != nil {
+			fail("open-failed", err.Error())
+			return
+		}
+		if pc, err = rg.PeerConnect(10 * time.Second); err != nil {
+			env.Discard()
+			return
+		}
+		pc.Start()
+		if cs.Active {
+			f, _, err := pc.Expect(10*time.Second, func(f peer.Frame) bool { return f.SType == peer.STSelectReq })
+			if err != nil {
+				fail("active-no-select-req", err.Error())
+				return
+			}
+			_ = pc.Send(peer.SelectRsp(f.Session, 0, f.Sys), peer.DeselectReq(0x1234, 0xD1D1D1D1))
+		} else {
+			_ = pc.Send(peer.SelectReq(0x1234, 0xD2D2D2D2), peer.DeselectReq(0x1234, 0xD1D1D1D1))
+		}
+		if f, _, err := pc.Expect(10*time.Second, func(f peer.Frame) bool { return f.SType == peer.STDeselectRsp }); err != nil || f.B3 != 0 {
+			fail("deselect-not-accepted", fmt.Sprintf("Deselect.req pipelined behind the select: rsp=%v err=%v", f, err))
+			return
+		}
+		if _, err := pc.Barrier(10 * time.Second); err != nil {
+			fail("control-traffic-affected", fmt.Sprintf("Linktest barrier after select + pipelined deselect failed: %v", err))
+			return
+		}
+		// whatever the library still has queued or pending internally for these two frames must not bring Selected back
+		if waitFor(300*time.Millisecond, func() bool { return rg.Conn.State() != hsms.NotSelectedState }) {
+			fail("not-in-notselected", fmt.Sprintf("the peer selected and deselected in one write (Deselect.rsp status 0 was sent), State() is %v", rg.Conn.State()))
+			return
+		}
+		env.Event("deselected_pipelined_situations", 1)
 	case "deselected":
 		opened = true
 		if pc, err = rg.Establish(nil); err != nil {
